@@ -29,3 +29,4 @@ def run(ctx):
     # ... and ties are broken by the priority / creation order the events were given (shared rules with C01)
     c01.r13_key_immutable(ctx)
     c01.r14_counter(ctx)
+    c01.r17_shared(ctx)
